@@ -38,7 +38,7 @@ REAL_VS_STUB = {
 }
 TIERS = {
     "quick": {"runs": 50000, "budget_s": 50, "chunk": 250, "det_pairs": 64, "fresh": 8},
-    "thorough": {"runs": 700000, "budget_s": 900, "chunk": 500, "det_pairs": 512, "fresh": 32},
+    "thorough": {"runs": 700000, "budget_s": 900, "chunk_timeout": 900, "chunk": 500, "det_pairs": 512, "fresh": 32},
 }
 
 
